@@ -188,7 +188,7 @@ def sync_overlay(shard, mods, extra_tests=None):
             if extra_tests and m.module in extra_tests:
                 hsrc += b'\n' + extra_tests[m.module].encode()
             put(hcopy, hsrc, 'h:' + m.module)
-            content += ('#[cfg(kani)]\n#[path = "%s"]\npub(crate) mod verif_kani_%s;\n' % (hcopy, m.module)).encode()
+            content += ('#[cfg(kani)]\n#[path = "%s"]\n%s mod verif_kani_%s;\n' % (hcopy, m.meta.get('visibility', 'pub(crate)'), m.module)).encode()
         put(os.path.join(shard.overlay, attach), content, 'a:' + attach)
     # shared include files (harness/<dir>/_*.rs) are copied next to the harness copies
     for p in glob.glob(os.path.join(VERIF, 'harness', '*', '_*.rs')):
